@@ -17,6 +17,10 @@ import (
 func Harness_C12_hdr_size() {
 	n := nondetInt("size")
 	assume(n >= 0)
+	// engine bound: buffers of 4..32768 bytes are not allocated symbolically
+	// (the engine would have to enumerate each length); they are covered with
+	// concrete contents by the C11/C12 stream harnesses.
+	assume(n <= 3 || n > 1<<15)
 	digits := strconv.Itoa(n)
 	prev := nondetChoice("prevlen", 3) // length class of the receive buffer left by an earlier record
 	h := &hdr{mtype: "", buf: bytes.NewBuffer(nil)}
@@ -39,6 +43,12 @@ func Harness_C12_hdr_size() {
 		})
 		verifRedirect("io.ReadFull", func(r io.Reader, buf []byte) (int, error) {
 			if len(buf) == 0 {
+				return 0, nil
+			}
+			return 0, io.EOF
+		})
+		verifRedirect("io.CopyN", func(dst io.Writer, src io.Reader, n int64) (int64, error) {
+			if n == 0 {
 				return 0, nil
 			}
 			return 0, io.EOF
